@@ -295,7 +295,7 @@ def run_cell(case):
         from sparseSpACE.ErrorCalculator import ErrorCalculatorSurplusCell
         drive_err = ErrorCalculatorSurplusCell()
     else:
-        drive_err = drive.make_tape_err(case["tape"], case["mode"])
+        drive_err = drive.make_tape_err(case["tape"], case["mode"], box=(case["a"], case["b"]))
     state = dict(evals=0, refines=0)
     orig_eval, orig_refine = sa.evaluate_operation, sa.refine
 
